@@ -1,0 +1,7 @@
+//go:build !verif
+
+package analysis
+
+import "github.com/go-openapi/spec"
+
+func verifEmit(string, *spec.Swagger, ...string) {}
